@@ -45,6 +45,8 @@ pub enum Event {
         grew: bool,
         items_after: Vec<StateItem>,
     },
+    /// The table filler is looking at `item` of state `state` (every item, in scan order).
+    ScanItem { state: usize, item: StateItem },
     /// `TableBuilder::set_action` was called.
     /// `outcome`: 0 = cell was empty, 1 = same action already present, 2 = conflict.
     SetAction {
